@@ -269,9 +269,20 @@ def snapshot(obj) -> dict:
     """State of a previously created object that later calls must not change (a dict, so that
     attributes added later - e.g. a cached_property - count as additions, not as a change)."""
     d = getattr(obj, "__dict__", None)
+
+    def keep(v, depth=0):
+        # like canon(), but dictionaries stay dictionaries so that keys added later count as additions
+        if isinstance(v, dict) and depth < 6:
+            return {repr(k): keep(x, depth + 1) for k, x in v.items()}
+        return canon(v)
+
+    # underscore attributes are private caches of the implementation (they may be filled lazily, grow, be evicted);
+    # whether they ever change an answer is decided by the outcome oracle on later uses of the object
+    public = {str(k): keep(v) for k, v in d.items() if not str(k).startswith("_")} if d is not None else {}
     return {"type": type(obj).__name__,
             "str": str.__str__(obj) if isinstance(obj, str) else canon(obj),
-            "attrs": {str(k): canon(v) for k, v in d.items()} if d is not None else {}}
+            "attrs": public,
+            "private_attr_names": sorted(str(k) for k in d if str(k).startswith("_")) if d is not None else []}
 
 
 def op_key(op) -> str:
